@@ -482,7 +482,9 @@ func genFacts(repo string) (string, error) {
 		fmt.Fprintf(&b, "-- could not establish: %s\n", strings.NewReplacer("\n", " ", "\r", " ").Replace(p))
 	}
 	b.WriteString("namespace Gen.C18\n\n")
-	wb := func(doc, name string, v bool) { fmt.Fprintf(&b, "/-- %s -/\ndef %s : Bool := %s\n\n", doc, name, lb(v)) }
+	wb := func(doc, name string, v bool) {
+		fmt.Fprintf(&b, "/-- %s -/\ndef %s : Bool := %s\n\n", doc, name, lb(v))
+	}
 	ws := func(doc, name, v string) { fmt.Fprintf(&b, "/-- %s -/\ndef %s : String := %q\n\n", doc, name, v) }
 	ws("go/ast, (*Manager).handleMessage, case taskop.TaskStatusMessage: shape of the condition of the one `if` (a direct statement of the clause) whose body builds calls.Kill and sends it with calls.CallNoData. "+
 		"\"reason+state\" = status.GetReason().String() == <literal> && (state == mesos.TASK_… || …), nothing else; "+
